@@ -72,6 +72,9 @@ type Report struct {
 	Notes       []string          `json:"notes"`
 	perKey      map[string]int
 	MaxInfo     map[string]float64 `json:"maxinfo"`
+	// states that are distinct by construction and therefore counted, not hashed
+	ExtraStates     int64 `json:"extra_states"`
+	ExtraNontrivial int64 `json:"extra_nontrivial"`
 }
 
 func NewReport() *Report {
@@ -117,6 +120,14 @@ func (c *Ctx) State(key string, nontrivial bool) bool {
 	}
 	c.R.States[h] = true
 	return true
+}
+
+// CountState records a state that is distinct by construction (no hash kept).
+func (c *Ctx) CountState(nontrivial bool) {
+	c.R.ExtraStates++
+	if nontrivial {
+		c.R.ExtraNontrivial++
+	}
 }
 
 func (c *Ctx) Count(name string, n int64) { c.R.Counters[name] += n }
@@ -205,6 +216,8 @@ func (r *Report) merge(o *Report) {
 			r.Samples = append(r.Samples, s)
 		}
 	}
+	r.ExtraStates += o.ExtraStates
+	r.ExtraNontrivial += o.ExtraNontrivial
 	r.NViolations += o.NViolations
 	for _, v := range o.Violations {
 		if r.perKey[v.Key] >= 2 || len(r.Violations) >= 40 {
